@@ -735,18 +735,25 @@ def rule_output_path_owner(ctx, rep):
 def _output_uses(ctx, rep, run) -> int:
     r = ctx.resolver(run)
     # names carrying the option value inside run()
-    tainted_txt = {"argv.output"}
+    from ..sites import cli_namespace_names, reads_option
+
+    ns = cli_namespace_names(ctx, run)
+
+    # `<namespace>.output`, whatever the namespace local / parameter is called
+    def _reads_output(e):
+        return reads_option(e, ns, "output")
+
     carriers = set()
     changed = True
     while changed:
         changed = False
         for a in walk_no_nested(run.node):
             if isinstance(a, ast.Assign) and len(a.targets) == 1 and isinstance(a.targets[0], ast.Name) and a.targets[0].id not in carriers:
-                if any(t in unparse(a.value) for t in tainted_txt) or names_in(a.value) & carriers:
+                if _reads_output(a.value) or names_in(a.value) & carriers:
                     carriers.add(a.targets[0].id)
                     changed = True
     def carries(e):
-        return any(t in unparse(e) for t in tainted_txt) or bool(names_in(e) & carriers)
+        return _reads_output(e) or bool(names_in(e) & carriers)
 
     n = 0
     for c in walk_no_nested(run.node):
